@@ -1,4 +1,5 @@
 import Girc.Base.GoLib
+import Girc.Base.GoSem
 import Girc.Spec.FormatTables
 /-
   Model of format.go: Fmt, TrimFmt, StripRaw (and the two regular expressions, hand-matched).
@@ -8,7 +9,6 @@ open Girc
 
 def LBRACE : Byte := 0x7B
 def RBRACE : Byte := 0x7D
-def COMMA : Byte := 0x2C
 
 /-- `fmt.Sprintf("%02d", n)` for the colour numbers (0..99). -/
 def twoDigits (n : Nat) : Bytes := [UInt8.ofNat (0x30 + n / 10 % 10), UInt8.ofNat (0x30 + n % 10)]
@@ -73,40 +73,8 @@ def tokenNames : List Bytes := Spec.colors.map (·.1) ++ Spec.codes.map (·.1)
 
 /-! ### StripRaw -/
 
-def isDigitB (b : Byte) : Bool := 0x30 ≤ b && b ≤ 0x39
-def is019 (b : Byte) : Bool := b = 0x30 || b = 0x31 || b = 0x39
-
-/-- `[019]?\d` at the head (greedy with backtracking): number of bytes consumed. -/
-def colorNum : Bytes → Option Nat
-  | a :: b :: _ => if is019 a && isDigitB b then some 2 else if isDigitB a then some 1 else none
-  | [a] => if isDigitB a then some 1 else none
-  | [] => none
-
-/-- `[019]?\d(,[019]?\d)?` at the head: number of bytes consumed. -/
-def colorArgs (s : Bytes) : Option Nat :=
-  match colorNum s with
-  | none => none
-  | some n =>
-    match s.drop n with
-    | c :: rest => if c = COMMA then
-        match colorNum rest with
-        | some m => some (n + 1 + m)
-        | none => some n
-      else some n
-    | [] => some n
-
-/-- `reColor.ReplaceAllString(text, "")`. -/
-def stripColorFuel : Nat → Bytes → Bytes
-  | 0, s => s
-  | _, [] => []
-  | n + 1, b :: rest =>
-    if b = 0x03 then
-      match colorArgs rest with
-      | some k => stripColorFuel n (rest.drop k)
-      | none => b :: stripColorFuel n rest
-    else b :: stripColorFuel n rest
-
-def stripColor (s : Bytes) : Bytes := stripColorFuel (s.length + 1) s
+-- `isDigitB`, `is019`, `colorNum`, `colorArgs`, `stripColorFuel`, `stripColor` (the hand-matched `reColor`) and `COMMA` are
+-- declared (under these same names) in Girc/Base/GoSem.lean, shared with the generated Gen/Funcs.lean.
 
 /-- `StripRaw`: colour sequences, then every one of the seven control bytes. -/
 def stripRaw (s : Bytes) : Bytes := (stripColor s).filter (fun b => !Spec.codeBytes.contains b)
